@@ -1387,10 +1387,13 @@ func ReplaceMissingNH(c *fluent.GRIBIClient, t testing.TB, _ ...TestOpt) {
 
 	ops := []func(){
 		func() {
+			// The entry must be valid other than the fact that it does not exist, such
+			// that the failure can only be due to it being an explicit replace.
 			c.Modify().ReplaceEntry(t,
 				fluent.NextHopEntry().
 					WithNetworkInstance(defaultNetworkInstanceName).
-					WithIndex(42))
+					WithIndex(42).
+					WithIPAddress("192.0.2.3"))
 		},
 	}
 
